@@ -246,6 +246,10 @@ func runC05(r *common.Rng, a map[string]string, out *common.Out) {
 		g.pref, g.shape = map[string]Atom{}, map[string]int{}
 		ns := 1 + g.r.Intn(3)
 		var cs []Expr
+		if g.r.Chance(1, 8) {
+			cs = append(cs, g.patternStress()...)
+			ns = g.r.Intn(2)
+		}
 		for j := 0; j < ns; j++ {
 			g.path = ""
 			k := g.r.Intn(10)
